@@ -25,6 +25,9 @@ type harnessCfg struct {
 	numCPU         int
 	forkIndexBelow int
 	maxSchedPoints int
+	// a feasible path that exceeds the call-depth bound is a violation
+	// ("never hangs"): natively a stack overflow crashes the test binary
+	recursionIsViolation bool
 }
 
 func defaultCfg() harnessCfg {
@@ -322,6 +325,9 @@ func (in *Interp) assert(c value, msg string) {
 		res, model := in.solver.check(in.pc, mkNot(c), true)
 		if d := time.Since(t0); d > 2*time.Second && os.Getenv("GOSYM_SLOW") != "" {
 			fmt.Fprintf(os.Stderr, "SLOW %.1fs %v assertion %q\n", d.Seconds(), res, msg)
+			if os.Getenv("GOSYM_SLOW") == "2" {
+				fmt.Fprintf(os.Stderr, "  term: %s\n", dumpTerm(c, 7))
+			}
 		}
 		switch res {
 		case rUnsat:
@@ -354,6 +360,13 @@ func (in *Interp) reportViolation(kind, msg string, model map[string]uint64) {
 			model = m
 		} else {
 			model = map[string]uint64{}
+			if res == rUnknown {
+				// the path may not even be feasible and there is no witness:
+				// an inconclusive end, not a violation
+				in.stats.inconclusive++
+				in.stats.samples = append(in.stats.samples, "INCONCLUSIVE (no model for the path of) "+kind+": "+msg)
+				return
+			}
 			if res == rUnsat {
 				// the path was only kept because of an unknown answer
 				if os.Getenv("GOSYM_DEBUG2") != "" {
@@ -424,6 +437,7 @@ func (in *Interp) resetPath() {
 		in.implied = map[*Term]implEnt{}
 	}
 	in.pos = 0
+	pathZero = map[*Term]uint64{}
 	in.model = nil
 	in.modelMemo = nil
 	in.steps = 0
@@ -526,7 +540,11 @@ func (in *Interp) explore(fn *ssa.Function, name string, prefixes [][]decision) 
 		case "unsupported":
 			in.stats.unsupported[msg]++
 		case "bound":
-			in.stats.boundEnds[msg]++
+			if in.cfg.recursionIsViolation && strings.HasPrefix(msg, "call depth") {
+				in.reportViolation("nontermination", "unbounded recursion: "+msg, nil)
+			} else {
+				in.stats.boundEnds[msg]++
+			}
 		case "engine":
 			engineErrs = append(engineErrs, msg)
 		}
